@@ -16,6 +16,7 @@ mean of samples = expansion point, zero frozen residuals, distinct PRNG keys for
 import contextlib
 import io
 import json
+import time
 import traceback
 from fractions import Fraction as Fr
 
@@ -399,6 +400,8 @@ class C18(C.Check):
     def correspondence(self, ctx, res):
         _nifty_quiet(jax_too=False)
         checks, meta = [], []
+        timing = {}
+        t0 = time.time()
         cases = [c["case"] for c in ctx.corpus() if "case" in c] + self.cases(ctx)
         # ---- (1) control flow, BEFORE anything imports JAX (fork) ----
         self.obs_cf = []
@@ -444,6 +447,8 @@ class C18(C.Check):
                     C.clist(["(%s, %s)" % (C.cnat(a), C.cbool(b)) for a, b in ids]),
                     C.clist([C.cnat(x) for x in drawn])))
                 meta.append(("cl.control_flow", o))
+        timing["control_flow_s"] = round(time.time() - t0, 1)
+        t0 = time.time()
         # ---- (2) sampling factors ----
         self.obs_T = []
         for case in cases:
@@ -457,6 +462,8 @@ class C18(C.Check):
                 self.obs_T.append((case, api, T, info, err))
                 checks.append("false" if err or not np.all(np.isfinite(T)) else factor_term(lg, case, T))
                 meta.append((api + ".factor", case))
+        timing["factors_s"] = round(time.time() - t0, 1)
+        t0 = time.time()
         # ---- (3)/(4) mirrored samples, geoVI on linear models ----
         self.obs_S = []
         nS = 4 if ctx.quick else 20
@@ -484,7 +491,10 @@ class C18(C.Check):
                 if "geo" in o:
                     checks.append("residuals_close %s %s %s" % (TOL_GEO_Q, rows(o["lin"]), rows(o["geo"])))
                     meta.append((api + ".geovi_linear", case))
-        bad = C.eval_cases(self.prop, "corr", HEADER, checks, shard=30)
+        timing["samples_s"] = round(time.time() - t0, 1)
+        t0 = time.time()
+        bad = C.eval_cases(self.prop, "corr", HEADER, checks, shard=12)
+        timing["coq_eval_s"] = round(time.time() - t0, 1)
         seen = set()
         for i in bad:
             name, what = meta[i]
@@ -512,7 +522,7 @@ class C18(C.Check):
                     "non-trivial = ntask > 1 resp. non-zero factor; distinct by configuration",
             "samples": [{"case": c, "api": api} for c, api, T, info, err in self.obs_T[:2]],
             "input_distribution": dist,
-            "disagreements": len(bad),
+            "disagreements": len(bad), "timing": timing,
             "point_estimate_cases": sum(1 for c, api, T, info, err in self.obs_T if c["pe"]),
             "nonlinear_cases": sum(1 for c, api, T, info, err in self.obs_T if c["nonlinear"]),
             "odd_start_tasks": sum(1 for o in self.obs_cf if o.get("ids") for ids in o["ids"] if ids and ids[0][1]),
